@@ -275,8 +275,14 @@ def check_levels(f, rep):
                     (sg, cons, excl, Enum("std::result::Result", "Err", {"0": Opaque("io::Error")}))]
         return ext
     for n in ("std::vec::Vec::<T>::new", "flate2::write::GzEncoder::<W>::new", "bzip2::write::BzEncoder::<W>::new", "std::string::ToString::to_string",
-              "std::thread::available_parallelism", "std::num::NonZero::<T>::get"):
+              ):
         externs[n] = opaque(n)
+    # zstdmt: `available_parallelism()?` is fallible, the thread count an unconstrained number (it never reaches a level argument)
+    externs["std::thread::available_parallelism"] = fallible("threads")
+
+    def nz_get(it, fn, args, dty, sg, cons, excl, depth):
+        return [(sg, cons, excl, BV.var("threads", 64, False))]
+    externs["std::num::NonZero::<T>::get"] = nz_get
     externs["zstd::Encoder::<'static, W>::new"] = fallible("zstd::Encoder")
     externs["zstd::Encoder::<'a, W>::new"] = fallible("zstd::Encoder")
     externs["zstd::Encoder::<'a, W>::multithread"] = fallible("()")
